@@ -15,10 +15,10 @@ TECHNIQUE = "property-based testing: metamorphic relations (range, symmetry, sel
 LEVEL_TEXT = (
     "compute_affinity is run on generated ordered pairs covering all 81 type combinations with placements {identical, shifted copy, "
     "independent in the same frame} and buffer pairs scaled to the frame; seven oracles are evaluated per case (range exactly [0,1], "
-    "symmetry 1e-12, self-affinity, time-disjoint => 0, closed-form box IoU, 1-D IoU band for time-only geometries, time-shift invariance, "
+    "symmetry 1e-9, self-affinity, time-disjoint => 0, closed-form box IoU, 1-D IoU band for time-only geometries, time-shift invariance, "
     "and IoU of shapes buffered through the public buffer_geometry). A second call with other buffers on the same objects exposes hidden state. Exploration."
 )
-LEVEL_NOTE = "trusts shapely area/intersection as an observer for the differential IoU; round caps may fall short by cos(pi/32) (1-D band oracle); buffers chosen so that coordinates stay below 1e6 unit buffers (outside the C11 finding F16)"
+LEVEL_NOTE = "trusts shapely area/intersection (in pair-local coordinates) as an observer for the differential IoU; round caps may fall short by cos(pi/32) (1-D band oracle); where a buffered geometry has coordinates >= 1e6 unit buffers (the region of C11 finding F16, about 10% of the time-only cases) the ideal-extent band is replaced by the 1-D IoU of the extents of the geometries buffered through the public buffer_geometry, and the disjointness oracle gets a slack of 1e-2 buffers"
 RULE = (
     "Hypothesis: ordered pair (kind1, kind2) drawn uniformly from the 81 combinations; both geometries valid, lines monotone in time "
     "(non-self-intersecting), built in one shared frame (time scale x frequency scale) so overlaps are common; placement in {identical, "
@@ -35,6 +35,9 @@ EXHAUSTIVE = False
 TIME_KINDS = ("TimeStamp", "TimeInterval")
 BUFFERED = ("TimeStamp", "Point", "MultiPoint", "LineString", "MultiLineString")
 THETA = math.cos(math.pi / 32)
+# |affinity(a, b) - affinity(b, a)| on correct code is rounding noise of an area ratio: measured <= 4e-13 over 180 000 generated pairs
+# (mostly exactly 0), whereas order dependence through GEOS snap-rounding (finding F25) shows up as 1e-10 .. 1e-2
+SYM_TOL = 1e-9
 PAIRS = [(a, b) for a in ALL_KINDS for b in ALL_KINDS]
 
 
@@ -69,6 +72,53 @@ def case(draw):
         return int(x) if (float(x).is_integer() and draw(st.booleans())) else x
 
     return {"g1": g1, "g2": g2, "tb": as_int(tb), "fb": as_int(fb), "tb2": as_int(tb2), "fb2": as_int(fb2), "dt": dt, "placement": placement}
+
+
+@st.composite
+def near_case(draw):
+    """Directed at finding F25: narrow line bundles far from the origin (frequencies near 5 MHz, times up to an hour) whose buffered
+    outlines are nearly coincident (a copy with an extra vertex, one vertex moved by 1/64 unit, the same line split in two, the same
+    line plus another one).  Near-coincident edges are where GEOS leaves exact noding for snap-rounding."""
+    ts = draw(st.sampled_from([2.0**-16, 2.0**-10, 2.0**-3, 1.0]))
+    fs = draw(st.sampled_from([2.0**-6, 1.0, 128.0]))
+    F0 = draw(st.sampled_from([float(MAXF), float(MAXF), 4e6, 250000.0, 20000.0]))
+    T0 = draw(st.sampled_from([0.0, 0.0, 100.0, 3600.0]))
+
+    def clampf(f):
+        return max(0.0, min(float(MAXF), f))
+
+    def line():
+        times = sorted(draw(st.lists(st.integers(0, 64), min_size=2, max_size=4, unique=True)))
+        return [[T0 + ts * t, clampf(F0 - fs * draw(st.integers(0, 4)))] for t in times]
+
+    l1 = line()
+    mode = draw(st.sampled_from(["extra", "move", "split", "same+line"]))
+    if mode == "split" and len(l1) < 3:
+        mode = "extra"
+    if mode == "extra":
+        i = draw(st.integers(0, len(l1) - 2))
+        a, b = l1[i], l1[i + 1]
+        mid = [(a[0] + b[0]) / 2, clampf((a[1] + b[1]) / 2 + draw(st.sampled_from([0.0, 0.0, fs / 64, -fs / 64])))]
+        c1, c2, k1, k2 = l1, l1[: i + 1] + [mid] + l1[i + 1 :], "LineString", "LineString"
+    elif mode == "move":
+        l2 = [list(q) for q in l1]
+        j = draw(st.integers(0, len(l2) - 1))
+        l2[j][1] = clampf(l2[j][1] + draw(st.sampled_from([fs / 64, -fs / 64, fs / 4])))
+        c1, c2, k1, k2 = l1, l2, "LineString", "LineString"
+    elif mode == "split":
+        k = draw(st.integers(1, len(l1) - 2))
+        c1, c2, k1, k2 = l1, [l1[: k + 1], l1[k:]], "LineString", "MultiLineString"
+    else:
+        c1, c2, k1, k2 = [l1], [line(), l1], "MultiLineString", "MultiLineString"
+    meta = {"ts": ts, "fs": fs, "t_off": T0, "f_off": F0, "flip": False, "free": False, "deg": None}
+    g1, g2 = {"type": k1, "coordinates": c1, "meta": meta}, {"type": k2, "coordinates": c2, "meta": meta}
+    if draw(st.booleans()):
+        g1, g2 = g2, g1
+    mult = [2.0**-6, 2.0**-3, 1.0]
+    return {
+        "g1": g1, "g2": g2, "tb": ts * draw(st.sampled_from(mult)), "fb": fs * draw(st.sampled_from(mult)),
+        "tb2": ts * draw(st.sampled_from(mult)), "fb2": fs * draw(st.sampled_from(mult)), "dt": ts * draw(st.integers(1, 256)) / 16, "placement": "near:" + mode,
+    }
 
 
 def buffered_time_extent(kind, b, tb, theta=1.0):
@@ -117,6 +167,14 @@ def ref_iou(s1, s2):
     return 0.0 if union == 0 else min(1.0, inter / union)
 
 
+def in_f16_region(kind, b, tb, fb):
+    """True when buffer_geometry works on coordinates >= 1e6 unit buffers for this geometry (C11 finding F16: GEOS snap-rounds there,
+    the buffered extents are off by up to ~1e-3 buffers).  Time stamps / intervals / boxes are buffered arithmetically."""
+    if kind not in BUFFERED or kind == "TimeStamp":
+        return False
+    return max(b[2] / tb if tb > 0 else b[2] * 1e9, b[3] / fb if fb > 0 else b[3] * 1e9) >= 1e6
+
+
 def has_area(kind, coords):
     b = ref_bounds(kind, coords)
     if kind in BUFFERED:
@@ -162,7 +220,7 @@ def check(spec, ctx):
 
     chk_range(a12, "(g1,g2)")
     chk_range(a21, "(g2,g1)")
-    if abs(a12 - a21) > 1e-12:
+    if abs(a12 - a21) > SYM_TOL:
         ctx.fail(f"affinity not symmetric for {k1}/{k2}: {a12} vs {a21}", spec, [a12, a21], None, kind="symmetry")
 
     # self affinity
@@ -175,8 +233,12 @@ def check(spec, ctx):
 
     # disjoint in time => 0
     e1, e2 = buffered_time_extent(k1, b1, tb), buffered_time_extent(k2, b2, tb)
+    def slack(t, f):
+        # in the F16 region the buffered extents themselves are only good to ~1e-3 buffers (see in_f16_region)
+        return 1e-2 * t if (in_f16_region(k1, b1, t, f) or in_f16_region(k2, b2, t, f)) else 0.0
+
     gap = max(e1[0], e2[0]) - min(e1[1], e2[1])
-    if gap > 1e-9 * max(1.0, e1[1], e2[1]) and a12 != 0:
+    if gap > 1e-9 * max(1.0, e1[1], e2[1]) + slack(tb, fb) and a12 != 0:
         ctx.fail(f"buffered geometries are disjoint in time (gap {gap}) but affinity is {a12}", spec, a12, 0, kind="disjoint")
 
     # boxes: closed form
@@ -190,10 +252,27 @@ def check(spec, ctx):
             ctx.fail(f"box affinity {a12} differs from the area IoU {exp}", spec, a12, exp, kind="box_iou")
 
     # time-only: 1-D IoU of buffered time extents
+    def time_only_oracles(a, t, f, tag):
+        # (1) the extents of the geometries buffered through the public buffer_geometry (whatever precision that has: C11's subject)
+        def ext(g, k):
+            p = buffer_geometry(g, time_buffer=t, freq_buffer=f) if k in BUFFERED else g
+            pb = ref_bounds(p.type, p.coordinates)
+            return (pb[0], pb[2])
+
+        exp = iou_1d(ext(g1, k1), ext(g2, k2))
+        if abs(a - min(1.0, exp)) > 1e-9:
+            ctx.fail(f"time-only affinity {a} {tag}for {k1}/{k2} differs from the 1-D IoU {exp} of the time extents of the geometries buffered with ({t},{f})", spec, a, exp, kind="time_only_differential")
+        # (2) the ideal extents (bounds +/- buffer), where buffer_geometry is exact enough to say so: outside the region of C11's
+        # finding F16 (coordinates >= 1e6 unit buffers in the space the code buffers in, where GEOS snap-rounds)
+        if in_f16_region(k1, b1, t, f) or in_f16_region(k2, b2, t, f):
+            ctx.label("ideal_band_skipped_f16_region")
+            return
+        lo, hi = time_only_band(k1, b1, k2, b2, t)
+        if not (lo - 1e-9 <= a <= hi + 1e-9):
+            ctx.fail(f"time-only affinity {a} {tag}for {k1}/{k2} outside the 1-D IoU band [{lo}, {hi}] of the time extents buffered by {t}", spec, a, [lo, hi], kind="time_only")
+
     if k1 in TIME_KINDS or k2 in TIME_KINDS:
-        lo, hi = time_only_band(k1, b1, k2, b2, tb)
-        if not (lo - 1e-9 <= a12 <= hi + 1e-9):
-            ctx.fail(f"time-only affinity {a12} for {k1}/{k2} outside the 1-D IoU band [{lo}, {hi}] of the buffered time extents {e1} / {e2}", spec, a12, [lo, hi], kind="time_only")
+        time_only_oracles(a12, tb, fb, "")
     else:
         # differential: IoU of the shapes buffered through the public API
         def prep(g, k):
@@ -229,12 +308,10 @@ def check(spec, ctx):
     c12 = aff(g1, g2, tb2, fb2)
     chk_range(c12, "(second buffers)")
     if k1 in TIME_KINDS or k2 in TIME_KINDS:
-        lo, hi = time_only_band(k1, b1, k2, b2, tb2)
-        if not (lo - 1e-9 <= c12 <= hi + 1e-9):
-            ctx.fail(f"time-only affinity {c12} with second buffers ({tb2},{fb2}) outside the 1-D IoU band [{lo}, {hi}]", spec, c12, [lo, hi], kind="time_only")
+        time_only_oracles(c12, tb2, fb2, "(second buffers) ")
     f1, f2 = buffered_time_extent(k1, b1, tb2), buffered_time_extent(k2, b2, tb2)
     gap2 = max(f1[0], f2[0]) - min(f1[1], f2[1])
-    if gap2 > 1e-9 * max(1.0, f1[1], f2[1]) and c12 != 0:
+    if gap2 > 1e-9 * max(1.0, f1[1], f2[1]) + slack(tb2, fb2) and c12 != 0:
         ctx.fail(f"(second buffers) disjoint in time (gap {gap2}) but affinity is {c12}", spec, c12, 0, kind="disjoint")
     ctx.unchanged(spec, "compute_affinity: the geometries", geoms_before, (g1, g2))
     again = aff(g1, g2)
@@ -252,4 +329,5 @@ def check(spec, ctx):
 
 SUBS = [
     Sub("affinity_laws", check, strategy=case, quick=8100, thorough=250000, min_nontrivial=0.15),
+    Sub("near_coincident", check, strategy=near_case, quick=6000, thorough=200000, min_nontrivial=0.5),
 ]
